@@ -829,10 +829,13 @@ real_pos = Regex(r"(?:\d+\.\d*|\.\d+)(?:[eE][+-]?\d+)?").set_parser_name("float"
 
 
 def parse_int(tokens):
-    if "e" in tokens[0].lower():
-        return int(float(tokens[0]))
+    text = tokens[0].lower()
+    if "e" in text:
+        # EXACT: THE REGEX ALLOWS ONLY NON-NEGATIVE EXPONENTS
+        mantissa, exponent = text.split("e")
+        return int(mantissa) * 10 ** int(exponent)
     else:
-        return int(tokens[0])
+        return int(text)
 
 
 int_num = Regex(r"[+-]?\d+(?:[eE]\+?\d+)?").set_parser_name("int") / parse_int
